@@ -675,7 +675,7 @@ fn mode_fmt(req: &J) -> J {
             let mut r = json!({"w": w, "i": i, "st": st});
             if st == "ok" {
                 r["out"] = json!(out);
-                match info(&out, path, false) {
+                match info(&out, path, want_cst) {
                     Ok(io) => {
                         r["o"] = info_json(&io, false);
                         r["ast_same"] = json!(io.ast == i_in.ast);
